@@ -362,6 +362,25 @@ func c13GuidParse(a []string) string {
 	var err error
 	var out string
 	s := txt(a[1])
+	if c13Used(a) { // as in c13GuidFromString: an earlier result of the same text is scribbled on first
+		var g0 *guid.GUID
+		var e0 error
+		switch a[0] {
+		case "N":
+			g0, e0 = guid.FromFormatN(s)
+		case "D":
+			g0, e0 = guid.FromFormatD(s)
+		case "B":
+			g0, e0 = guid.FromFormatB(s)
+		case "P":
+			g0, e0 = guid.FromFormatP(s)
+		case "X":
+			g0, e0 = guid.FromFormatX(s)
+		}
+		if e0 == nil && g0 != nil {
+			g0.FromRawBytes(c13Earlier)
+		}
+	}
 	switch a[0] {
 	case "N":
 		if g, err = guid.FromFormatN(s); err == nil {
@@ -393,6 +412,12 @@ func c13GuidParse(a []string) string {
 }
 
 func c13GuidFromString(a []string) string {
+	if c13Used(a) {
+		// what an earlier call handed out belongs to its caller: it is scribbled on before the same text is parsed again
+		if g0, err := guid.FromString(txt(a[0])); err == nil && g0 != nil {
+			g0.FromRawBytes(c13Earlier)
+		}
+	}
 	g, err := guid.FromString(txt(a[0]))
 	if err != nil {
 		return "err"
